@@ -28,4 +28,8 @@ example : allowed { pkg := "babyjub", fn := "Point.InCurve", line := 0, kind := 
 example : allowed { pkg := "mimc7", fn := "Hash", line := 0, kind := "big.Int.Mod", what := "arr[i].Mod(arr[i], q)",
                     origins := [.param 0], exported := true } = false := by decide
 
+-- an operation whose result captures a pointer into a package constant is rejected (aliasing escape)
+example : allowed { pkg := "babyjub", fn := "PrivateKey.SignPoseidon", line := 0, kind := "capture-global", what := "NewPoint().Mul(r, B8)",
+                    origins := [.global "babyjub.B8"], exported := true } = false := by decide
+
 end I3.Props.C16
